@@ -57,7 +57,7 @@ class Report:
                 os.remove(os.path.join(self.wd, f))
         self.extra = {}
 
-    def add_design(self, module, cfg, out, st, what=''):
+    def add_design(self, module, cfg, out, st, what='', allowed_zero=()):
         if not common.tlc_ok(out, st):
             p = os.path.join(self.wd, f'design_{module}.out')
             with open(p, 'w') as f:
@@ -65,8 +65,16 @@ class Report:
             raise common.MachineryError(f'design run {module}/{cfg} failed, see {p}\n' + out[-2500:])
         self.states += st['states']
         self.transitions += st['transitions']
+        # per-action coverage (-coverage 1): an action of the model that was never taken means the property was never exercised
+        import re
+        actions = {}
+        for m in re.finditer(r'^<(\w+) line \d+, col \d+ to line \d+, col \d+ of module (\w+)>: (\d+):(\d+)', out, re.M):
+            actions[m.group(1)] = max(actions.get(m.group(1), 0), int(m.group(3)))
+        never = sorted(a for a, n in actions.items() if n == 0 and a not in allowed_zero and not a.startswith('Dev_'))
+        if never:
+            raise common.MachineryError(f'design run {module}/{cfg}: actions never taken (vacuous model run): {never}')
         self.design.append({'module': module, 'cfg': cfg, 'states': st['states'], 'transitions': st['transitions'],
-                            'wall_s': round(st['wall_s'], 1), 'what': what})
+                            'wall_s': round(st['wall_s'], 1), 'what': what, 'distinct_states_per_action': actions})
 
     def add_trace_stats(self, st, n):
         self.states += st['states']
